@@ -327,6 +327,14 @@ Fixpoint claims_list_match (rqs : list req_claims) (pcs : list pres_claims) : ma
   | _, _ => MFailClaims
   end.
 
+(** [verify_credential_validity]: EVERY credential of the presentation has to be valid at the
+    verification time: valid_from <= now < valid_to  (integers = milliseconds) *)
+Definition valid_at (now : N) (v : N * N) : bool := (fst v <=? now) && (now <? snd v).
+Definition all_valid_at (now : N) (vs : list (N * N)) : bool := forallb (valid_at now) vs.
+(** the weaker reading in which only the last credential decides *)
+Definition last_valid_at (now : N) (vs : list (N * N)) : bool :=
+  match rev vs with [] => true | v :: _ => valid_at now v end.
+
 (** * Transcripts: labelled byte strings and the two framings *)
 
 Local Open Scope N_scope.
